@@ -103,7 +103,17 @@ func ruleCodecSym(c *RC) *RuleResult {
 		decExits := c.exitsOf(ct.dec)
 		for _, f := range ct.fields {
 			r.Sites++
-			if why, ok := codecExempt[ct.name+"."+f]; ok {
+			why, ok := codecExempt[ct.name+"."+f]
+			if !ok {
+				// by role: the memo of Hash() (assigned only inside the type's Hash method), and the field NewViewNumber()
+				// returns (derived by the enclosing decoder)
+				if hf := c.hashCacheField(ct.name); hf != "" && hf == f {
+					why, ok = "cache of Hash(); never encoded", true
+				} else if c.fieldGetters()[f]["NewViewNumber"] {
+					why, ok = codecExempt["changeView.newViewNumber"], true
+				}
+			}
+			if ok {
 				r.ok(ct.name + "." + f + " not on the wire: " + why)
 				continue
 			}
@@ -695,7 +705,7 @@ func ruleHashInput(c *RC) *RuleResult {
 			continue
 		}
 		for _, s := range c.A.FnSites[fn] {
-			if s.Kind == "write" && s.Loc == "recv.hash" && fn != ph {
+			if s.Kind == "write" && s.Loc == "recv."+c.hashCacheFieldOr("Payload", "hash") && fn != ph {
 				for _, sn := range s.Snaps {
 					r.Sites++
 					if sn.Val != nil && sn.Val.K == KNil {
@@ -711,7 +721,7 @@ func ruleHashInput(c *RC) *RuleResult {
 	if ph != nil {
 		setsCache := false
 		for _, s := range c.A.FnSites[ph] {
-			if s.Kind == "write" && s.Loc == "recv.hash" {
+			if s.Kind == "write" && s.Loc == "recv."+c.hashCacheFieldOr("Payload", "hash") {
 				setsCache = true
 			}
 		}
@@ -723,7 +733,7 @@ func ruleHashInput(c *RC) *RuleResult {
 				r.Sites++
 				clears := false
 				for _, s := range c.A.FnSites[fn] {
-					if s.Kind == "write" && s.Loc == "recv.hash" {
+					if s.Kind == "write" && s.Loc == "recv."+c.hashCacheFieldOr("Payload", "hash") {
 						clears = true
 					}
 				}
@@ -744,7 +754,16 @@ func ruleHashInput(c *RC) *RuleResult {
 		r.Sites++
 		bad := ""
 		for _, e := range c.exitsOf(ghd) {
-			if e.ReadSeen["recv.signature"] || e.ReadSeen["recv.data"] {
+			sigF, dataF := "signature", "data"
+			for f, ms := range c.fieldGetters() {
+				if ms["Signature"] {
+					sigF = f
+				}
+				if ms["Data"] {
+					dataF = f
+				}
+			}
+			if e.ReadSeen["recv."+sigF] || e.ReadSeen["recv."+dataF] {
 				bad = "GetHashData reads the signature/data field"
 			}
 		}
@@ -770,18 +789,96 @@ func ruleHashInput(c *RC) *RuleResult {
 }
 
 // P-CTOR
+// ctorRoles: constructor parameter -> the public accessor through which the value must come back (or the exported
+// field it lands in). The private field in between is found, not named.
 var ctorRoles = map[string]map[string]string{
 	"NewBlock":            {"timestamp": "Timestamp", "index": "Index", "prevHash": "PrevHash", "nonce": "ConsensusData", "txHashes": "MerkleRoot"},
-	"NewConsensusPayload": {"t": "cmType", "height": "height", "validatorIndex": "validatorIndex", "viewNumber": "viewNumber", "consensusMessage": "payload"},
-	"NewPrepareRequest":   {"ts": "timestamp", "nonce": "nonce", "transactionsHashes": "transactionHashes"},
-	"NewPrepareResponse":  {"preparationHash": "preparationHash"},
-	"NewChangeView":       {"newViewNumber": "newViewNumber", "ts": "timestamp"},
-	"NewRecoveryRequest":  {"ts": "timestamp"},
+	"NewConsensusPayload": {"t": "Type", "height": "Height", "validatorIndex": "ValidatorIndex", "viewNumber": "ViewNumber", "consensusMessage": "Payload"},
+	"NewPrepareRequest":   {"ts": "Timestamp", "nonce": "Nonce", "transactionsHashes": "TransactionHashes"},
+	"NewPrepareResponse":  {"preparationHash": "PreparationHash"},
+	"NewChangeView":       {"newViewNumber": "NewViewNumber", "ts": "Timestamp"},
+	"NewRecoveryRequest":  {"ts": "Timestamp"},
+}
+
+// hashCacheField: the memo of type tn's Hash method — the receiver field Hash() mentions whose type is the result type
+// of Hash (or a pointer to it); "" if none.
+func (c *RC) hashCacheField(tn string) string {
+	h := c.Prog.ByName["internal/consensus:"+tn+".Hash"]
+	if h == nil || h.RecvVar == nil {
+		return ""
+	}
+	sig := h.Obj.Type().(*types.Signature)
+	if sig.Results().Len() != 1 {
+		return ""
+	}
+	rt := sig.Results().At(0).Type()
+	info := h.Pkg.TypesInfo
+	out := ""
+	ast.Inspect(h.Decl.Body, func(n ast.Node) bool {
+		if sel, ok := n.(*ast.SelectorExpr); ok {
+			if s := info.Selections[sel]; s != nil && s.Kind() == types.FieldVal {
+				if id, ok := ast.Unparen(sel.X).(*ast.Ident); ok && info.Uses[id] == h.RecvVar {
+					ft := s.Obj().Type()
+					if p, ok := ft.(*types.Pointer); ok {
+						ft = p.Elem()
+					}
+					if types.Identical(ft, rt) {
+						out = sel.Sel.Name
+					}
+				}
+			}
+		}
+		return true
+	})
+	return out
+}
+
+func (c *RC) hashCacheFieldOr(tn, dflt string) string {
+	if f := c.hashCacheField(tn); f != "" {
+		return f
+	}
+	return dflt
+}
+
+// fieldGetters: private field name -> public no-argument methods of internal/consensus whose single return expression
+// reads exactly that field of the receiver.
+func (c *RC) fieldGetters() map[string]map[string]bool {
+	out := map[string]map[string]bool{}
+	for _, fn := range c.Prog.sortedFuncs() {
+		if fn.Pkg.PkgPath != consPath || fn.RecvVar == nil || len(fn.Params) != 0 || len(fn.Decl.Body.List) != 1 {
+			continue
+		}
+		rs, ok := fn.Decl.Body.List[0].(*ast.ReturnStmt)
+		if !ok || len(rs.Results) != 1 {
+			continue
+		}
+		info := fn.Pkg.TypesInfo
+		var fields []string
+		ast.Inspect(rs.Results[0], func(n ast.Node) bool {
+			if sel, ok := n.(*ast.SelectorExpr); ok {
+				if s := info.Selections[sel]; s != nil && s.Kind() == types.FieldVal {
+					if id, ok := ast.Unparen(sel.X).(*ast.Ident); ok && info.Uses[id] == fn.RecvVar {
+						fields = append(fields, sel.Sel.Name)
+					}
+				}
+			}
+			return true
+		})
+		if len(fields) == 1 {
+			m := fn.Decl.Name.Name
+			if out[fields[0]] == nil {
+				out[fields[0]] = map[string]bool{}
+			}
+			out[fields[0]][m] = true
+		}
+	}
+	return out
 }
 
 func ruleCtor(c *RC) *RuleResult {
 	r := &RuleResult{Rule: "P-CTOR", Kind: "PROV", Doc: "constructors use every named parameter, and same-typed parameters land in the field of their role"}
 	n := 0
+	getters := c.fieldGetters()
 	for _, fn := range c.Prog.sortedFuncs() {
 		if fn.Pkg.PkgPath != consPath || fn.Recv != "" || !strings.HasPrefix(fn.Name, "New") {
 			continue
@@ -828,6 +925,14 @@ func ruleCtor(c *RC) *RuleResult {
 				return true
 			})
 			want := ctorRoles[fn.Name][p.Name()]
+			// the role is met if the destination is the exported field of that name or a field the accessor returns
+			if want != "" && !dests[want] {
+				for d := range dests {
+					if getters[d][want] {
+						dests[want] = true
+					}
+				}
+			}
 			switch {
 			case !used:
 				r.fail(fn.Name+"/unused:"+p.Name(), c.Prog.Pos(fn.Decl), "constructor parameter "+p.Name()+" is never used (a blank _ is the explicit opt-out)")
@@ -837,7 +942,7 @@ func ruleCtor(c *RC) *RuleResult {
 					ds = append(ds, d)
 				}
 				sort.Strings(ds)
-				r.fail(fn.Name+"/role:"+p.Name(), c.Prog.Pos(fn.Decl), fmt.Sprintf("parameter %s goes to %v, expected field %s", p.Name(), ds, want))
+				r.fail(fn.Name+"/role:"+p.Name(), c.Prog.Pos(fn.Decl), fmt.Sprintf("parameter %s goes to %v, expected the field that %s() returns", p.Name(), ds, want))
 			default:
 				r.ok(fn.Name + ": " + p.Name() + " → " + want)
 			}
